@@ -200,11 +200,13 @@ Definition py_int_field (s : list N) : fw * list N :=
   | [] => (FNone, s)
   end.
 
-Definition py_conv_chars (is_bytes : bool) : list N :=
-  [100; 105; 111; 117; 120; 88; 101; 69; 102; 70; 103; 71; 99; 114; 115; 97; 37]
-  ++ (if is_bytes then [ch_b] else []).
-
-(* after a '%': Some (specifier, rest); None = ValueError *)
+(* after a '%': Some (specifier, rest); None = ValueError (incomplete format /
+   incomplete format key).  Every character of the regex's conversion class is
+   taken as a conversion character here (Percent.spec_tail): CPython rejects any
+   other character, and 'b' in a text template, only when it formats the
+   argument ("unsupported format character" is raised after the argument was
+   fetched) — for 'b' that is what [conv_ok] models; other characters end the
+   parse with ValueError, which is a raise in any case. *)
 Definition py_parse_spec (is_bytes : bool) (s : list N) : option (cspec * list N) :=
   match s with
   | [] => None                                            (* incomplete format *)
@@ -219,31 +221,7 @@ Definition py_parse_spec (is_bytes : bool) (s : list N) : option (cspec * list N
                        else Some (None, s) in
         match key_res with
         | None => None
-        | Some (key, s2) =>
-            let (fl, s3) := span (fun x => mem x flag_chars) s2 in
-            let flags := match fl with [] => None | _ => Some fl end in
-            let (width, s4) := py_int_field s3 in
-            let (prec, s6) :=
-              match s4 with
-              | d :: s5 => if d =? ch_dot then
-                             match py_int_field s5 with
-                             | (FNone, r) => (FNum 0, r)   (* "%.f": precision 0 *)
-                             | pr => pr
-                             end
-                           else (FNone, s4)
-              | [] => (FNone, s4)
-              end in
-            let (lm, s7) :=
-              match s6 with
-              | d :: r => if mem d len_chars then (Some d, r) else (None, s6)
-              | [] => (None, s6)
-              end in
-            match s7 with
-            | d :: s8 => if mem d (py_conv_chars is_bytes)
-                         then Some (mk_cspec d key flags width prec lm, s8)
-                         else None                        (* unsupported format character *)
-            | [] => None                                  (* incomplete format *)
-            end
+        | Some (key, s2) => spec_tail py_int_field (Some (FNum 0)) key s2
         end
   end.
 
